@@ -379,6 +379,9 @@ def tlc_mc(sc, d, base, name, constants, invariants=(), properties=(), spec="Spe
     return run_tlc(sc, d, mod + ".tla", mod + ".cfg", **kw)
 
 
+DIAGNOSTICS = []      # internal divergences printed by trace specifications (not verdict-bearing)
+
+
 def shard_traces(lines, k):
     """Split ndjson trace lines into <= k shards at 'begin' boundaries."""
     starts = [i for i, l in enumerate(lines) if l.startswith('{"ev":"begin"') or '"ev":"begin"' in l[:80]]
@@ -433,6 +436,8 @@ def validate_traces(sc, d, module, cfg, trace_path, shards=None, timeout=1800, h
                 done = rec
             elif "reject" in rec:
                 rejects.append(rec)
+            elif "diag" in rec:
+                DIAGNOSTICS.append(rec)
         if done is None or done["events"] != len(sh[i]):
             raise ToolFailure("trace validation did not consume shard %d of %s:\n%s" % (i, module, res.out[-3000:]))
         if res.violated:
